@@ -408,6 +408,8 @@ def run(ctx, facts):
             ctx.violation("CLONE", SHA + "hash_weigthed_idxmap", "3a/3aSha disagree", hirq.loc(facts.fn(SHA + "hash_weigthed_idxmap")),
                           "outside the seeding block ProbMinHash3a has `%s` where ProbMinHash3aSha has `%s`" % (d[0][:90], d[1][:90]))
     # 6 RESETBEFORE
+    from . import C13
+    C13.require_verified_reset(ctx, facts, [C13.FY], "RESETBEFORE")
     fn = facts.fn(P2 + "hash_item")
     t = tree_of(fn)
     resets = self_method_calls(fn, "permut_generator", ["reset"])
